@@ -116,7 +116,8 @@ def search(ctx, scales_mod, np):
     mk = {
         "mel": lambda rep: scales_mod.MelScaling(),
         "bark": lambda rep: scales_mod.BarkScaling(),
-        "linear": lambda rep: scales_mod.LinearScaling(r.choice([0.0, 10.0, -5.0, 123.5]), r.choice([1.0, 0.5, 2.0, 3.25])),
+        # parameters also as Python ints, as a JSON configuration delivers them
+        "linear": lambda rep: scales_mod.LinearScaling(r.choice([0.0, 10.0, -5.0, 123.5, 0, 10, -5]), r.choice([1.0, 0.5, 2.0, 3.25, 1, 2, 3])),
         # every other octave scale has a positive low_hz below the 1e-10 floor
         "octave": lambda rep: scales_mod.OctaveScaling(r.choice(OCTAVE_LOW_TINY if rep % 2 else OCTAVE_LOW)),
     }
@@ -220,7 +221,7 @@ def search(ctx, scales_mod, np):
             chk("reassigned_like_fresh", abs(v - vf) <= tol * max(1.0, abs(vf)), det)
             ctx.count("search:reassigned-" + kind)
     # low_hz maps to scale 0 for linear and octave
-    for lowv, slope in ((10.0, 2.0), (5.0, 0.5), (0.0, 3.0)):
+    for lowv, slope in ((10.0, 2.0), (5.0, 0.5), (0.0, 3.0), (0, 2), (10, 3)):
         s = scales_mod.LinearScaling(lowv, slope)
         chk("linear_zero", abs(s.hertz_to_scale(lowv)) <= 1e-12, dict(low_hz=lowv, slope_hz=slope))
         chk("linear_slope", abs(s.hertz_to_scale(lowv + 1.0) - slope) <= 1e-9, dict(low_hz=lowv, slope_hz=slope))
